@@ -57,7 +57,7 @@ var c17Valid = map[string]string{
 }
 
 // stdout kinds
-var c17Outs = []string{"valid", "no-name", "no-description", "no-version", "no-url", "no-capabilities", "no-contract", "wrong-name", "bad-contract", "nonjson", "empty", "pad-before", "pad-after", "truncated", "null", "trailing-object", "trailing-text", "trailing-binary", "leading-text", "two-replies"}
+var c17Outs = []string{"valid", "no-name", "no-description", "no-version", "no-url", "no-capabilities", "no-contract", "wrong-name", "bad-contract", "nonjson", "empty", "pad-before", "pad-after", "truncated", "null", "trailing-object", "trailing-text", "trailing-binary", "leading-text", "two-replies", "bom", "extra-field", "array-wrapped", "string-wrapped"}
 
 // stderr kinds
 var c17Errs = []string{"empty", "structured", "structured-nomsg", "empty-object", "nonjson", "huge"}
@@ -204,6 +204,15 @@ func c17Stdout(cmd, kind string, size int64) (data string, fillBefore, fillAfter
 		return "starting plugin...\n" + valid, 0, 0, false
 	case "two-replies":
 		return valid + "\n" + valid, 0, 0, false
+	case "bom": // a byte-order mark is not JSON
+		return "\xef\xbb\xbf" + valid, 0, 0, false
+	case "extra-field": // unknown members are legal
+		return strings.Replace(valid, "{", `{"x-unknown":{"a":[1,2,3]},`, 1), 0, 0, true
+	case "array-wrapped":
+		return "[" + valid + "]", 0, 0, false
+	case "string-wrapped":
+		b, _ := json.Marshal(valid)
+		return string(b), 0, 0, false
 	}
 	return valid, 0, 0, true
 }
